@@ -5,14 +5,15 @@ from hypothesis import strategies as st
 
 from .. import repo, strategies as S, tmcases as T
 from ..core import SubCheck, Fail, Discard, metric, target, is_seq
-from ..oracles import tm_exact
+from ..oracles import tm_exact, geodesic_exact as GX
 
 RULE = ("zone 1..60 (longitudes kept inside [-180, 180]), both hemispheres, first point at lat -80..84 with easting 100 000..900 000 m, "
         "second point at any bearing, 1 m..100 km away, same hemisphere (or exactly on the equator), same or adjacent zone incl. zones "
         "60 <-> 1 across the antimeridian, lines crossing the central meridian; hemisphere spelled 'south' / 'South' / 'SOUTH' or left "
         "to its default, bearings as floats or angle objects; GRS80 (the grid functions' documented default) and the other shipped ellipsoids; non-trivial = line longer than 100 m")
 ASSUMPTIONS = ["definition: grid distance = ellipsoidal (vincinv) distance x line scale factor, grid bearing = azimuth + convergence of "
-               "the point's own zone (recomputed from the library's own inverse conversion and geodesic; those are decided by C02/C05/C10)",
+               "the point's own zone (recomputed from the library's own inverse conversion and geodesic, which C02 / C05 / C10 decide), AND the "
+               "exact geodesic (Gauss-Legendre oracle) from point 1 with the implied azimuth and distance must arrive at point 2 within 3 mm",
                "point scale factors along the line come from the exact-TM oracle (analytic derivative)",
                "second points are kept at least 1 km inside the hemisphere and the latitude band",
                "vincinv rounds distances to 1 mm and the conversions round to 0.1 mm: closure budget 0.5 + 2 x 0.07 mm < 1 mm"]
@@ -23,6 +24,7 @@ A_INVF = {"grs80": (6378137.0, 298.257222101), "wgs84": (6378137.0, 298.25722356
 
 def selftest():
     tm_exact.selftest()
+    GX.selftest()
 
 
 def _cm(zone):
@@ -119,6 +121,19 @@ def check_inverse_definition(case):
     if not (_angdiff(b12, a12 + p1[3]) <= 1e-9 and _angdiff(b21, a21 + p2[3]) <= 1e-9):
         raise Fail("grid bearings are not the geodetic azimuths plus the grid convergence at each end (each in its own zone)",
                    expected={"b12": a12 + p1[3], "b21": a21 + p2[3]}, observed={"b12": b12, "b21": b21})
+    # "the ellipsoidal geodesic distance" and "the geodetic azimuths" are not whatever the library's own inverse says: following
+    # the EXACT geodesic from point 1 with the azimuth (grid bearing - convergence) and the distance (grid distance / line scale
+    # factor) that vincinv_utm implies must arrive at point 2 (2 mm of C05 + the 1 mm to which the distance is reported)
+    a_, invf_ = A_INVF[case["ell"]]
+    if lsf > 0 and gdist > 0:
+        t_lat, t_lon, t_az = GX.direct(p1[0], p1[1], b12 - p1[3], gdist / lsf, a_, invf_)
+        miss = GX.metric_distance(t_lat, t_lon, p2[0], p2[1], a_, invf_)
+        metric("inverse_arrival_m", miss)
+        if not miss <= 3e-3:
+            raise Fail("the exact geodesic from point 1 with (grid bearing - convergence, grid distance / line scale factor) does not arrive at point 2",
+                       expected={"lat2": p2[0], "lon2": p2[1], "tol_m": 3e-3},
+                       observed={"grid_dist": gdist, "lsf": lsf, "bearing": b12, "convergence": p1[3], "arrive_lat": t_lat, "arrive_lon": t_lon,
+                                 "miss_m": miss})
     lsf2 = gd.line_sf(z1, e1, n1, z2, e2, n2, *ha, **hk)
     if not abs(lsf2 - lsf) <= 1e-9:
         raise Fail("vincinv_utm's line scale factor is not line_sf of the same arguments", expected=lsf2, observed=lsf)
